@@ -1,7 +1,7 @@
 (** Property C05 — errors in match components are handled exactly as the error policy says.
     Statements only; proofs in Match/ErrorsProofs.v. *)
 From Coq Require Import ZArith List Bool.
-From V Require Import Match.Errors Match.ErrorsProofs.
+From V Require Import Scan.PySem Match.Errors Match.ErrorsProofs Match.ErrEv Match.ErrSrc Match.ErrSrcEq.
 Import ListNotations.
 Open Scope Z_scope.
 
@@ -44,6 +44,21 @@ Theorem C05_vote_match_mode : forall pending child,
   expr_vote true true pending child = true /\ expr_vote true false pending child = child.
 Proof. intros pending child. unfold expr_vote. destruct pending, child; split; reflexivity. Qed.
 Print Assumptions C05_vote_match_mode.
+
+(** the source itself: ErrorCommsManager.do_i_* and ErrorHandler._handle_if as translated from csvpath/util/error.py (Match/ErrSrc.v,
+    regenerated on every run) decide and act exactly as the model, for every policy list, override and state *)
+Theorem C05_handle_source : forall l v s line,
+  apply_evs (handle_if_src obj obj (PList l) (ovv (v_raise v)) (ovv (v_print v)) (ovv (v_stop v)) (ovv (v_fail v))) s line
+  = handle false (pol_of l) v s line.
+Proof. exact handle_if_src_eq. Qed.
+Print Assumptions C05_handle_source.
+Theorem C05_decisions_source : forall l v,
+  do_i_raise_src obj (ovv (v_raise v)) (PList l) = PBool (do_i_raise (pol_of l) v) /\
+  do_i_print_src obj (ovv (v_print v)) (PList l) = PBool (do_i_print (pol_of l) v) /\
+  do_i_stop_src obj (ovv (v_stop v)) (PList l) = PBool (do_i_stop (pol_of l) v) /\
+  do_i_fail_src obj (ovv (v_fail v)) (PList l) = PBool (do_i_fail (pol_of l) v).
+Proof. intros l v. repeat split; [apply do_i_raise_src_eq|apply do_i_print_src_eq|apply do_i_stop_src_eq|apply do_i_fail_src_eq]. Qed.
+Print Assumptions C05_decisions_source.
 
 (** D5 (fixed in /repo): with the switch on, a policy containing 'quiet' crashes before any effect *)
 Theorem C05_quiet_refuted :
